@@ -747,6 +747,14 @@ def run_task(t):
     return fails, counts, desc, sample
 
 
+class HarnessDeadline(Exception):
+    pass
+
+
+def _deadline(signum, frame):
+    raise HarnessDeadline()
+
+
 def _worker_init():
     # the parent's SIGTERM handler must not be inherited: Pool.terminate() relies on SIGTERM killing a worker outright
     signal.signal(signal.SIGTERM, signal.SIG_DFL)
@@ -770,14 +778,26 @@ def main():
         tasks.append(dict(task='shipped', file=os.path.relpath(f, os.path.join(REPO, 'tests', 'data'))))
     failures, counts, distinct, samples = [], dict((c, 0) for c in CONTRACTS), set(), []
     pool = mp.Pool(min(16, os.cpu_count() or 1), initializer=_worker_init)
+    signal.signal(signal.SIGALRM, _deadline)
+    signal.alarm({'quick': 280, 'thorough': 870}.get(tier, 280))      # whatever happens, report within the budget
+    hung = False
     try:
         for fails, cnt, desc, sample in pool.imap(run_task, tasks, chunksize=4):
             failures.extend(fails)
             for k, v in cnt.items(): counts[k] += v
             distinct.update(desc)
             if sample is not None and len(samples) < 4: samples.append(sample)
+    except HarnessDeadline:
+        failures.append({'key': 'timeout harness-deadline', 'what': 'the harness did not finish within its wall-clock budget; results are partial',
+                         'input': {'tier': tier, 'seed': seed}})
     finally:
-        pool.terminate(); pool.join()
+        signal.alarm(30)
+        try:
+            pool.terminate(); pool.join()
+        except HarnessDeadline:
+            hung = True
+        finally:
+            signal.alarm(0)
         shutil.rmtree(SCRATCH[0], ignore_errors=True)
     # one per class first (smallest reproduction), classes = category + stage + a few features
     def klass(f):
@@ -799,6 +819,8 @@ def main():
            'failures': ordered[:int(os.environ.get('C20_MAXFAIL', '60'))], 'nfailures': len(failures), 'samples': samples,
            'seconds': time.time() - t0, 'per_contract': counts, 'failure_classes': len(groups)}
     print('@@JSON@@' + json.dumps(out))
+    if hung:
+        sys.stdout.flush(); os._exit(0)
 
 
 if __name__ == '__main__':
